@@ -122,7 +122,7 @@ def make_scratch(slot, prop):
         with open(hostp, "a") as f:
             f.write('\n#[cfg(kani)]\n#[path = "%s"]\nmod __verif_%s;\n' % (dst, mod))
     # call-site substitutions (environment models that cannot be expressed as kani::stub)
-    for rel, old, new in SUBSTITUTIONS:
+    for rel, old, new in list(SUBSTITUTIONS) + list(prop.get("substitutions", [])):
         fp = os.path.join(slot.scratch, rel)
         if os.path.isfile(fp):
             txt = open(fp).read()
